@@ -19,6 +19,7 @@ func init() {
 		DoesNotDecide: "equality of parallel and sequential results; races that need aliasing between distinct handles; anything the race detector would need a schedule for",
 		Rules: map[string]string{
 			"C18.1": "a pooled buffer that is released does not escape (store to field/element/map, return, append into a kept slice) before or after the release without being re-acquired",
+			"C18.15": "a pooled buffer goes back to the pool once: for every utils.GetBuffer no path passes two releases of that buffer (explicit, or explicit and deferred) without acquiring it again (ReleaseBuffer(buf) for ReleaseBuffer(entryBuf) in the entry loop of ReadBTreeEntries puts the node header's buffer into the pool once per entry and once more on return: two handles reading in parallel receive the same backing array)",
 			"C18.2": "no package-level variable of the library is written outside its declaration or init (handles share no mutable global state)",
 			"C18.4": "guarded-by: every access to a field of the frozen guarded table holds the owner's mutex (constructor writes to a fresh object excepted)",
 			"C18.5": "state shared between a background goroutine and foreground calls is accessed under a common lock on both sides",
@@ -363,6 +364,29 @@ func ruleC18Pool(c *Ctx, r *Result) {
 				r.Hold("C18.1", construct+"#never-released", pos, "buffer is kept (never returned to the pool)")
 				continue
 			}
+			// C18.15: one acquisition, at most one release on any path
+			twice := ""
+			for _, r1 := range releases {
+				for _, r2 := range releases {
+					if r1 == r2 {
+						continue
+					}
+					_, d1 := r1.(*ssa.Defer)
+					_, d2 := r2.(*ssa.Defer)
+					switch {
+					case d1 && !d2 && canReachAvoiding(r1, r2, g):
+						twice = "released at " + c.InstrPos(r2) + " and again by the deferred call registered at " + c.InstrPos(r1)
+					case !d1 && !d2 && canReachAvoiding(r1, r2, g):
+						twice = "released at " + c.InstrPos(r1) + " and again at " + c.InstrPos(r2)
+					}
+				}
+			}
+			r.Check(twice == "", "C18.15", construct+"#released-at-most-once", pos, firstNonEmpty(twice, "no path releases the buffer twice")+func() string {
+				if twice != "" {
+					return ": the pool then holds the same backing array twice and hands it to two readers"
+				}
+				return ""
+			}())
 			bad := ""
 			for _, e := range escapes {
 				if deferred {
